@@ -92,6 +92,11 @@ fn failing(rng: &mut Rng, runtime: bool) -> (&'static str, &'static str, &'stati
             ("1 ", ";", "", "control-flow"),
             ("1 ", "endcase", "", "control-flow"),
             ("7 ! ", "no-such-var", "", "unknown-word"),
+            // a malformed token exactly where a defining word reads its name
+            (": ", "0xZZ", " 1 ;", "parse"),
+            ("5 var ", "12x", "", "parse"),
+            ("7 ! ", "1.2.3", "", "parse"),
+            ("defined ", "0b2", "", "parse"),
         ])
     }
 }
